@@ -355,6 +355,19 @@ func runC18(sc drv.Scenario) drv.Result {
 				if err == nil && v == nil {
 					return viol("parse-nil", fmt.Sprintf("%q: neither error nor version", s), nil)
 				}
+				// a shorter spelling (M.m.p or M.m.p-build, plain decimal numbers) that the parser accepts is a prefix of a
+				// full-form string: what it spells must come out as in the full form (the order on reported versions stays consistent)
+				if full2, okp := c18Denotes(s + map[bool]string{true: "-0-enterprise", false: "-enterprise"}[!strings.Contains(s, "-")]); okp && err == nil && v != nil && !strings.HasSuffix(s, "-") {
+					res.Events["prefix_forms"]++
+					got := [4]int{v.Major, v.Minor, v.Patch, v.Build}
+					wantp := full2
+					if !strings.Contains(s, "-") {
+						wantp[3] = 0
+					}
+					if got != wantp {
+						return viol("parse-prefix", fmt.Sprintf("%q was accepted and parsed to %v; the full form it is a prefix of denotes %v", s, got, wantp), nil)
+					}
+				}
 			}
 		}
 		res.SubEvals = res.Checks
